@@ -725,6 +725,7 @@ class AtomsCollection:
 
             if not perm:
                 print(f"Can not overwrite folder {path}, skipping...")
+                return
 
             shutil.rmtree(path)
 
